@@ -194,7 +194,7 @@ func main() {
 
 	configs := []loadCfg{{tests: *tests, tags: *tags}}
 	if *tier == "thorough" && !*child {
-		configs = []loadCfg{{false, ""}, {true, ""}, {false, "stringlabels"}}
+		configs = []loadCfg{{false, ""}, {false, "stringlabels"}}
 	}
 	var all []Obligation
 	var rules map[string]*RuleInfo
